@@ -69,3 +69,7 @@ field("Fiber.g_shape1", "opt[int]")         # ghost: getShape(all_ranks=False) o
 # model/intersect.py
 field("LeaderFollowerIntersector.num_intersects", "int")
 field("LeaderFollowerIntersector.started", "bool")
+
+# model/traffic.py: heap order of the cache model's replacement candidates
+field("ListElem.next_access", "tuple[int,int]")     # next-use stamp over two loop ranks (lexicographic)
+field("ListElem.pos", "int")
